@@ -83,7 +83,7 @@ type QueueSnap struct {
 	CurPrio     int32            `json:"curPrio"`
 	Template    string           `json:"template"`
 	QPSet       bool             `json:"qpSet"`
-	QPDue       bool             `json:"qpDue"`
+	QPDue       bool             `json:"-"`
 	QPRunning   bool             `json:"qpRunning"`
 	HeadRoom    map[string]int64 `json:"headroom"`
 	EffMax      map[string]int64 `json:"effMax"`
